@@ -692,7 +692,12 @@ class OptimizationProblem(EvaluationProblem):
                     [self._CONSTRAINTS_GROUP, self._OBSERVABLES_GROUP],
                 ):
                     if functions:
-                        function_group = h5file.require_group(group)
+                        # The functions are read back in the order of their creation.
+                        function_group = (
+                            h5file[group]
+                            if group in h5file
+                            else h5file.create_group(group, track_order=True)
+                        )
                         for function in functions:
                             store_attr_h5data(
                                 function, function_group.require_group(function.name)
